@@ -538,10 +538,17 @@ theorem blkKeys_map (ps : List PE) : blkKeys (ps.map toBlk) = ps.map pkey := by
 /-- entries below this index are never cut again -/
 def sb (s : State) (opened : Bool) : Nat := if opened then s.fileStart else s.blocks.length
 
-structure Inv (pre : Bytes) (s : State) (ps : List PE) (opened : Bool) (acc : List Blk) (recs : List Rec) : Prop where
+/-- the history key of the block a call stores -/
+def ckey (c : Call) : Nat × UInt32 := (mkWord c.data.length c.flags, c.chk)
+
+/-- `loose` = the stored calls made outside every file (fragment blocks), with the location returned: they lie
+below the bound `sb` like the files' runs, so no later truncation reaches them. -/
+structure Inv (pre : Bytes) (s : State) (ps : List PE) (opened : Bool) (acc : List Blk) (recs : List Rec)
+    (loose : List (Nat × Call)) : Prop where
   abs  : Abs pre s ps
   cur  : opened = true → (ps.drop s.fileStart).map toBlk = acc
   recs : ∀ rc ∈ recs, HoldsIn (sb s opened) pre ps rc.loc (blkKeys rc.blks) (blkBytes rc.blks)
+  loose : ∀ r ∈ loose, HoldsIn (sb s opened) pre ps r.1 [ckey r.2] r.2.data
 
 /-- state after the `FIRST` test of `write_data_block` -/
 def afterFirst (s : State) (c : Call) : State :=
@@ -559,8 +566,8 @@ theorem writeDataBlock_eq (s : State) (c : Call) :
       if hasFlag c.flags blkLastBlock then deduplicateBlocks (afterStore (afterFirst s c) c) c.flags
       else .ok (afterStore (afterFirst s c) c, (afterFirst s c).file.length) := rfl
 
-theorem inv_first {pre s ps opened acc recs} (c : Call) (h : Inv pre s ps opened acc recs) :
-    Inv pre (afterFirst s c) ps (opened || c.first) (if c.first then [] else acc) recs := by
+theorem inv_first {pre s ps opened acc recs loose} (c : Call) (h : Inv pre s ps opened acc recs loose) :
+    Inv pre (afterFirst s c) ps (opened || c.first) (if c.first then [] else acc) recs loose := by
   have hl := h.abs.len
   have hfs := h.abs.fs
   unfold afterFirst
@@ -568,14 +575,15 @@ theorem inv_first {pre s ps opened acc recs} (c : Call) (h : Inv pre s ps opened
   · have hf' : hasFlag c.flags blkFirstBlock = true := hf
     rw [if_pos hf']
     simp only [hf, Bool.or_true, if_true]
-    refine ⟨⟨h.abs.blocks, h.abs.file, h.abs.offs, ?_, h.abs.ho⟩, ?_, ?_⟩
+    have hsb : sb s opened ≤ s.blocks.length := by unfold sb; split <;> omega
+    refine ⟨⟨h.abs.blocks, h.abs.file, h.abs.offs, ?_, h.abs.ho⟩, ?_, ?_, ?_⟩
     · show s.blocks.length ≤ ps.length; omega
     · intro _; show (ps.drop s.blocks.length).map toBlk = []
       rw [List.drop_eq_nil_of_le (by omega)]; rfl
     · intro rc hrc
-      refine HoldsIn_stable (h.recs rc hrc) rfl ?_
-      show sb s opened ≤ s.blocks.length
-      unfold sb; split <;> omega
+      exact HoldsIn_stable (h.recs rc hrc) rfl hsb
+    · intro r hr
+      exact HoldsIn_stable (h.loose r hr) rfl hsb
   · have hf' : ¬ hasFlag c.flags blkFirstBlock = true := hf
     rw [if_neg hf']
     have : c.first = false := by simpa using hf
@@ -583,10 +591,11 @@ theorem inv_first {pre s ps opened acc recs} (c : Call) (h : Inv pre s ps opened
     exact h
 
 
-theorem inv_store {pre s ps opened acc recs} (c : Call) (h : Inv pre s ps opened acc recs)
+theorem inv_store {pre s ps opened acc recs loose} (c : Call) (h : Inv pre s ps opened acc recs loose)
     (hsz : c.data.length < 2 ^ 24) :
-    ∃ ps', Inv pre (afterStore s c) ps' opened (acc ++ (if c.stored then [c.blk] else [])) recs ∧
-      (afterStore s c).fileStart = s.fileStart := by
+    ∃ ps', Inv pre (afterStore s c) ps' opened (acc ++ (if c.stored then [c.blk] else [])) recs loose ∧
+      (afterStore s c).fileStart = s.fileStart ∧
+      (c.stored = true → ps' = ps ++ [((⟨s.file.length, mkWord c.data.length c.flags, c.chk⟩ : Entry), c.data)]) := by
   have hl := h.abs.len
   have hfs := h.abs.fs
   unfold afterStore
@@ -595,7 +604,19 @@ theorem inv_store {pre s ps opened acc recs} (c : Call) (h : Inv pre s ps opened
     rw [if_pos hst']
     simp only [hst, if_true]
     let e : Entry := ⟨s.file.length, mkWord c.data.length c.flags, c.chk⟩
-    refine ⟨ps ++ [(e, c.data)], ⟨⟨?_, ?_, ?_, ?_, h.abs.ho⟩, ?_, ?_⟩, trivial⟩
+    have hstab : ∀ {loc K P}, HoldsIn (sb s opened) pre ps loc K P →
+        HoldsIn (sb { s with blocks := s.blocks ++ [e], file := writeAt s.file s.file.length c.data } opened) pre
+          (ps ++ [(e, c.data)]) loc K P := by
+      intro loc K P hh
+      refine HoldsIn_stable hh ?_ ?_
+      · apply List.take_append_of_le_length
+        unfold sb; split <;> omega
+      · unfold sb
+        split
+        · exact Nat.le_refl _
+        · show s.blocks.length ≤ (s.blocks ++ [e]).length
+          simp
+    refine ⟨ps ++ [(e, c.data)], ⟨⟨?_, ?_, ?_, ?_, h.abs.ho⟩, ?_, ?_, ?_⟩, trivial, fun _ => rfl⟩
     · show s.blocks ++ [e] = (ps ++ [(e, c.data)]).map (·.1)
       rw [List.map_append, h.abs.blocks]; rfl
     · show writeAt s.file s.file.length c.data = pre ++ bytesOf (ps ++ [(e, c.data)])
@@ -612,19 +633,14 @@ theorem inv_store {pre s ps opened acc recs} (c : Call) (h : Inv pre s ps opened
       show ((ps ++ [(e, c.data)]).drop s.fileStart).map toBlk = acc ++ [c.blk]
       rw [List.drop_append_of_le_length hfs, List.map_append, h.cur ho]; rfl
     · intro rc hrc
-      refine HoldsIn_stable (h.recs rc hrc) ?_ ?_
-      · apply List.take_append_of_le_length
-        unfold sb; split <;> omega
-      · unfold sb
-        split
-        · exact Nat.le_refl _
-        · show s.blocks.length ≤ (s.blocks ++ [e]).length
-          simp
+      exact hstab (h.recs rc hrc)
+    · intro r hr
+      exact hstab (h.loose r hr)
   · have hst' : ¬ (c.data.length != 0 && !hasFlag c.flags blkIsSparse) = true := hst
     rw [if_neg hst']
     have : c.stored = false := by simpa using hst
     simp only [this, Bool.false_eq_true, if_false, List.append_nil]
-    exact ⟨ps, h, trivial⟩
+    exact ⟨ps, h, trivial, fun hc => by simp at hc⟩
 
 
 def nextOpened (opened : Bool) (c : Call) : Bool := if c.last then false else opened || c.first
@@ -632,18 +648,25 @@ def nextOpened (opened : Bool) (c : Call) : Bool := if c.last then false else op
 def nextRecs (recs : List Rec) (c : Call) (acc' : List Blk) (loc : Nat) : List Rec :=
   if c.last && !acc'.isEmpty then recs ++ [⟨loc, acc'⟩] else recs
 
+def nextLoose (loose : List (Nat × Call)) (opened : Bool) (c : Call) (loc : Nat) : List (Nat × Call) :=
+  if c.outside opened && c.stored then loose ++ [(loc, c)] else loose
+
 /-- One `write_data_block` call preserves the invariant, never fails, records the location it hands out, and
 (completeness) hands out a location at or before every equal earlier file. -/
-theorem write_spec {pre s ps opened acc recs} (c : Call) (h : Inv pre s ps opened acc recs)
+theorem write_spec {pre s ps opened acc recs loose} (c : Call) (h : Inv pre s ps opened acc recs loose)
     (hsz : c.data.length < 2 ^ 24) (hwf : c.last = true → (opened || c.first) = true) :
     ∃ s' loc ps', writeDataBlock s c.chk c.flags c.data = .ok (s', loc) ∧
-      Inv pre s' ps' (nextOpened opened c) (fileStep acc c) (nextRecs recs c (fileStep acc c) loc) ∧
+      Inv pre s' ps' (nextOpened opened c) (fileStep acc c) (nextRecs recs c (fileStep acc c) loc)
+        (nextLoose loose opened c loc) ∧
       (c.last = true → fileStep acc c ≠ [] → c.dontDedup = false →
          ∀ rc ∈ recs, rc.blks = fileStep acc c → loc ≤ rc.loc) := by
   have h1 := inv_first c h
-  obtain ⟨ps2, h2, hfs2⟩ := inv_store c h1 hsz
-  change Inv pre _ ps2 (opened || c.first) (fileStep acc c) recs at h2
+  obtain ⟨ps2, h2, hfs2, hps2⟩ := inv_store c h1 hsz
+  change Inv pre _ ps2 (opened || c.first) (fileStep acc c) recs loose at h2
   rw [writeDataBlock_eq]
+  have hflen : (afterFirst s c).file.length = pre.length + (bytesOf ps).length := by
+    rw [← h.abs.fileLen]; unfold afterFirst; split <;> rfl
+  have hlen2 : c.stored = true → (afterStore (afterFirst s c) c).blocks.length = ps2.length := fun _ => h2.abs.len
   generalize afterStore (afterFirst s c) c = s2 at *
   generalize fileStep acc c = acc' at *
   by_cases hl : c.last = true
@@ -657,18 +680,22 @@ theorem write_spec {pre s ps opened acc recs} (c : Call) (h : Inv pre s ps opene
     have hB : blkBytes acc' = bytesOf (ps2.drop s2.fileStart) := by rw [← hcur, blkBytes_map]
     have hownne : acc' ≠ [] → ps2.drop s2.fileStart ≠ [] := by
       intro hne he; rw [he] at hcur; exact hne hcur.symm
-    refine ⟨s', loc, ps', heq, ⟨habs', ?_, ?_⟩, ?_⟩
+    have hsb : sb s' (nextOpened opened c) = ps'.length := by
+      simp [sb, nextOpened, hl, habs'.len]
+    have hkeep : ∀ {loc K P}, HoldsIn (sb s2 true) pre ps2 loc K P → HoldsIn ps'.length pre ps' loc K P := by
+      intro loc K P this
+      simp only [sb, if_true] at this
+      refine HoldsIn_stable this hpre ?_
+      have := habs'.fs
+      rw [hfs'] at this; exact this
+    have hnl : nextLoose loose opened c loc = loose := by
+      simp [nextLoose, Call.outside, hl]
+    refine ⟨s', loc, ps', heq, ⟨habs', ?_, ?_, ?_⟩, ?_⟩
     · intro hf; simp [nextOpened, hl] at hf
-    · have hsb : sb s' (nextOpened opened c) = ps'.length := by
-        simp [sb, nextOpened, hl, habs'.len]
-      rw [hsb]
+    · rw [hsb]
       have hold : ∀ rc ∈ recs, HoldsIn ps'.length pre ps' rc.loc (blkKeys rc.blks) (blkBytes rc.blks) := by
         intro rc hrc
-        have := h2.recs rc hrc
-        simp only [sb, if_true] at this
-        refine HoldsIn_stable this hpre ?_
-        have := habs'.fs
-        rw [hfs'] at this; exact this
+        exact hkeep (h2.recs rc hrc)
       intro rc hrc
       unfold nextRecs at hrc
       by_cases hne : acc' = []
@@ -681,6 +708,9 @@ theorem write_spec {pre s ps opened acc recs} (c : Call) (h : Inv pre s ps opene
           show HoldsIn ps'.length pre ps' loc (blkKeys acc') (blkBytes acc')
           rw [hK, hB]
           exact hpost.1 (hownne hne)
+    · rw [hsb, hnl]
+      intro r hr
+      exact hkeep (h2.loose r hr)
     · intro _ hne hdd rc hrc hblk
       have := h2.recs rc hrc
       simp only [sb, if_true] at this
@@ -693,7 +723,25 @@ theorem write_spec {pre s ps opened acc recs} (c : Call) (h : Inv pre s ps opene
     have e1 : nextOpened opened c = (opened || c.first) := by simp [nextOpened, hlf]
     have e2 : ∀ loc, nextRecs recs c acc' loc = recs := by intro loc; simp [nextRecs, hlf]
     rw [e1, e2]
-    exact h2
+    refine ⟨h2.abs, h2.cur, h2.recs, ?_⟩
+    intro r hr
+    unfold nextLoose at hr
+    by_cases hout : (c.outside opened && c.stored) = true
+    · rw [if_pos hout, List.mem_append, List.mem_singleton] at hr
+      rcases hr with hr | hr
+      · exact h2.loose r hr
+      · subst hr
+        simp only [Bool.and_eq_true] at hout
+        have hop : (opened || c.first) = false := by
+          have := hout.1; simp [Call.outside] at this; simp [this.1]
+        have hps := hps2 hout.2
+        rw [hop]
+        have hsb : sb s2 false = ps2.length := by simp [sb, hlen2 hout.2]
+        rw [hsb]
+        refine ⟨ps, [((⟨(afterFirst s c).file.length, mkWord c.data.length c.flags, c.chk⟩ : Entry), c.data)], [], ?_, hflen, rfl, by simp⟩
+        rw [hps, List.append_nil]; exact List.take_of_length_le (Nat.le_refl _)
+    · rw [if_neg hout] at hr
+      exact h2.loose r hr
 
 
 theorem wf_cons (opened : Bool) (c : Call) (cs : List Call) (h : wf opened (c :: cs) = true) :
@@ -710,17 +758,18 @@ theorem wf_cons (opened : Bool) (c : Call) (cs : List Call) (h : wf opened (c ::
 /-- The whole run: never fails, keeps the invariant with every handed-out location recorded, and is
 sharing-complete. -/
 theorem run_spec {pre : Bytes} : ∀ (cs : List Call) {s : State} {ps : List PE} {opened : Bool} {acc : List Blk}
-    {recs : List Rec}, Inv pre s ps opened acc recs → sizesOk cs → wf opened cs = true →
+    {recs : List Rec} {loose : List (Nat × Call)}, Inv pre s ps opened acc recs loose → sizesOk cs → wf opened cs = true →
     ∃ s' locs ps' opened' acc', run s cs = .ok (s', locs) ∧
-      Inv pre s' ps' opened' acc' (recs ++ recsOf acc cs locs) ∧ locs.length = cs.length ∧
+      Inv pre s' ps' opened' acc' (recs ++ recsOf acc cs locs) (loose ++ looseOf opened cs locs) ∧
+      locs.length = cs.length ∧
       shareCompleteOk recs acc cs locs = true := by
   intro cs
   induction cs with
   | nil =>
-    intro s ps opened acc recs h _ _
-    exact ⟨s, [], ps, opened, acc, rfl, by simpa [recsOf] using h, rfl, rfl⟩
+    intro s ps opened acc recs loose h _ _
+    exact ⟨s, [], ps, opened, acc, rfl, by simpa [recsOf, looseOf] using h, rfl, rfl⟩
   | cons c cs ih =>
-    intro s ps opened acc recs h hsz hwf
+    intro s ps opened acc recs loose h hsz hwf
     obtain ⟨hwf1, hwf2⟩ := wf_cons opened c cs hwf
     obtain ⟨s1, loc, ps1, hw, hinv1, hcomp⟩ := write_spec c h (hsz c (List.mem_cons_self ..)) hwf1
     obtain ⟨s', locs, ps', opened', acc', hr, hinv', hlen, hsc⟩ :=
@@ -731,7 +780,11 @@ theorem run_spec {pre : Bytes} : ∀ (cs : List Call) {s : State} {ps : List PE}
           = nextRecs recs c (fileStep acc c) loc ++ recsOf (fileStep acc c) cs locs := by
         simp only [recsOf, nextRecs]
         split <;> simp
-      rw [this]; exact hinv'
+      have this2 : loose ++ looseOf opened (c :: cs) (loc :: locs)
+          = nextLoose loose opened c loc ++ looseOf (nextOpened opened c) cs locs := by
+        simp only [looseOf, nextLoose, nextOpened]
+        split <;> simp
+      rw [this, this2]; exact hinv'
     · rw [shareCompleteOk, Bool.and_eq_true]
       refine ⟨?_, ?_⟩
       · split
@@ -747,8 +800,8 @@ theorem run_spec {pre : Bytes} : ∀ (cs : List Call) {s : State} {ps : List PE}
 
 /-! ### from the invariant to the oracle predicates -/
 
-theorem Inv_init (pre : Bytes) : Inv pre (init pre) [] false [] [] :=
-  ⟨Abs_init pre, fun h => Bool.noConfusion h, fun _ h => by cases h⟩
+theorem Inv_init (pre : Bytes) : Inv pre (init pre) [] false [] [] [] :=
+  ⟨Abs_init pre, fun h => Bool.noConfusion h, fun _ h => (by cases h), fun _ h => (by cases h)⟩
 
 theorem readback_of_recs (file : Bytes) : ∀ (cs : List Call) (acc : List Blk) (locs : List Nat),
     locs.length = cs.length →
@@ -787,6 +840,119 @@ theorem readback_of_recs (file : Bytes) : ∀ (cs : List Call) (acc : List Blk) 
         apply hrec
         simp only [recsOf, hlf, Bool.false_and, Bool.false_eq_true, if_false]
         exact hrc
+
+/-- from the two record lists to the oracle over every kept location -/
+theorem holdsAll_of (file : Bytes) : ∀ (cs : List Call) (opened : Bool) (acc : List Blk) (locs : List Nat),
+    locs.length = cs.length →
+    (∀ rc ∈ recsOf acc cs locs, slice file rc.loc (blkBytes rc.blks).length = blkBytes rc.blks) →
+    (∀ r ∈ looseOf opened cs locs, slice file r.1 r.2.data.length = r.2.data) →
+    holdsAll file (claimsOf opened acc cs) locs = true := by
+  intro cs
+  induction cs with
+  | nil => intro opened acc locs hl _ _; cases locs with
+    | nil => rfl
+    | cons _ _ => simp at hl
+  | cons c cs ih =>
+    intro opened acc locs hl hrec hloose
+    cases locs with
+    | nil => simp at hl
+    | cons loc locs =>
+      have hl' : locs.length = cs.length := by simpa using hl
+      have hrec' : ∀ rc ∈ recsOf (fileStep acc c) cs locs,
+          slice file rc.loc (blkBytes rc.blks).length = blkBytes rc.blks := by
+        intro rc hrc
+        apply hrec
+        simp only [recsOf]
+        split
+        · exact List.mem_cons_of_mem _ hrc
+        · exact hrc
+      have hloose' : ∀ r ∈ looseOf (if c.last then false else opened || c.first) cs locs,
+          slice file r.1 r.2.data.length = r.2.data := by
+        intro r hr
+        apply hloose
+        simp only [looseOf]
+        exact List.mem_append_right _ hr
+      simp only [claimsOf]
+      by_cases hlast : c.last = true
+      · simp only [hlast, if_true, holdsAll, Bool.and_eq_true, beq_iff_eq]
+        refine ⟨?_, ?_⟩
+        · by_cases hne : fileStep acc c = []
+          · rw [hne]; simp [blkBytes, slice]
+          · apply hrec ⟨loc, fileStep acc c⟩
+            simp [recsOf, hlast, hne]
+        · have := ih false (fileStep acc c) locs hl' hrec'
+          simp only [hlast, if_true] at hloose'
+          exact this hloose'
+      · have hlf : c.last = false := by simpa using hlast
+        simp only [hlf, Bool.false_eq_true, if_false] at hloose' ⊢
+        by_cases hout : (c.outside opened && c.stored) = true
+        · simp only [hout, if_true, holdsAll, Bool.and_eq_true, beq_iff_eq]
+          refine ⟨?_, ih _ _ locs hl' hrec' hloose'⟩
+          apply hloose (loc, c)
+          simp [looseOf, hout]
+        · simp only [hout, Bool.false_eq_true, if_false, holdsAll]
+          exact ih _ _ locs hl' hrec' hloose'
+
+theorem wfS_wf : ∀ (cs : List Call) (opened : Bool), wfS opened cs = true → wf opened cs = true := by
+  intro cs
+  induction cs with
+  | nil => intro _ _; rfl
+  | cons c cs ih =>
+    intro opened h
+    unfold wfS at h
+    unfold wf
+    simp only [Bool.and_eq_true] at h
+    by_cases hl : c.last = true
+    · simp only [hl, if_true, Bool.and_eq_true] at h ⊢
+      exact ⟨h.2.1, ih false h.2.2⟩
+    · have hlf : c.last = false := by simpa using hl
+      simp only [hlf, Bool.false_eq_true, if_false] at h ⊢
+      exact ih _ h.2
+
+/-- under the strengthened protocol every stored fragment block is a call outside every file -/
+theorem fragBlocksOk_of (file : Bytes) : ∀ (cs : List Call) (opened : Bool) (locs : List Nat),
+    locs.length = cs.length → wfS opened cs = true →
+    (∀ r ∈ looseOf opened cs locs, slice file r.1 r.2.data.length = r.2.data) →
+    fragBlocksOk file cs locs = true := by
+  intro cs
+  induction cs with
+  | nil => intro opened locs hl _ _; cases locs with
+    | nil => rfl
+    | cons _ _ => simp at hl
+  | cons c cs ih =>
+    intro opened locs hl hwf hloose
+    cases locs with
+    | nil => simp at hl
+    | cons loc locs =>
+      have hl' : locs.length = cs.length := by simpa using hl
+      unfold wfS at hwf
+      simp only [Bool.and_eq_true] at hwf
+      have hloose' : ∀ r ∈ looseOf (if c.last then false else opened || c.first) cs locs,
+          slice file r.1 r.2.data.length = r.2.data := by
+        intro r hr
+        apply hloose
+        simp only [looseOf]
+        exact List.mem_append_right _ hr
+      have hrest : fragBlocksOk file cs locs = true := by
+        by_cases hlast : c.last = true
+        · simp only [hlast, if_true, Bool.and_eq_true] at hwf hloose'
+          exact ih false locs hl' hwf.2.2 hloose'
+        · have hlf : c.last = false := by simpa using hlast
+          simp only [hlf, Bool.false_eq_true, if_false] at hwf hloose'
+          exact ih _ locs hl' hwf.2 hloose'
+      simp only [fragBlocksOk, Bool.and_eq_true]
+      refine ⟨?_, hrest⟩
+      by_cases hfb : c.fragBlk = true ∧ c.stored = true
+      · rw [if_pos hfb]
+        have h1 := hwf.1
+        rw [if_pos hfb.1] at h1
+        simp only [Bool.and_eq_true, Bool.not_eq_true'] at h1
+        rw [beq_iff_eq]
+        apply hloose (loc, c)
+        have hout : c.outside opened = true := by
+          simp [Call.outside, h1.1.1, h1.1.2, h1.2]
+        simp [looseOf, hout, hfb.2]
+      · rw [if_neg hfb]
 
 theorem slice_prefix (f : Bytes) (l n1 n2 : Nat) (h : n1 ≤ n2) : slice f l n1 = (slice f l n2).take n1 := by
   simp [slice, List.take_take, Nat.min_eq_left h]
